@@ -233,7 +233,7 @@ class C18(Prop):
             'every data global / class attribute of the parso package is unchanged by a second pass, whose results equal the first; '
             '(2b) after a warm-up with fixed *other* texts (first-use memoisation of tables, token patterns) the first pass of the drawn calls '
             'already leaves that fingerprint unchanged (memoising wrappers show their fill level); (3) the same calls run in 2-6 threads through the shared grammar objects under the harness-owned line-granular baton '
-            'scheduler (schedule = drawn run lengths / next-thread choices) give the sequential results. Three of four cases are light sibling histories: 2-3 calls where a later call gets an earlier call\'s text or a one-token '
+            'scheduler (schedule = drawn run lengths / next-thread choices) give the sequential results. Enumerated every run (first-use grid): a fresh interpreter whose very first library call is interrupted at line n, n on a grid that is dense over the first 6 000 lines (one-time construction of tables and patterns) and geometric beyond, followed by a fixed probe battery (every string prefix, f-strings, numbers, operators, blocks, errors) whose results must equal the warm ones. Three of four cases are light sibling histories: 2-3 calls where a later call gets an earlier call\'s text or a one-token '
             'variant of it (string prefix flipped, one name/number replaced), usually the same kind of call, compared with the pristine process only. '
             'Non-trivial: schedule with >=3 context switches while >=2 threads are inside parse/walk/tokenize; light case: two calls of one kind with different texts. Distinct by (calls, schedule).')
     assumptions = ['interleavings are sampled at source-line granularity, never enumerated; races inside one line are invisible to the baton scheduler']
@@ -302,8 +302,40 @@ class C18(Prop):
                     'schedule': draw(st.lists(st.integers(1, 120), min_size=8, max_size=60))}
         return case()
 
+    # probe battery for the first-use grid: every string prefix x quote, f-strings, numbers, operators, blocks, errors
+    BATTERY = ("x = r'a' + R\"b\" + u'c' + b'd' + rb'e' + Br'f' + f'{g}' + F\"{h!r:>{w}}\" + rf'{i}' + fr\"\"\"{j}\"\"\"\n"
+               "def f(a, /, b=0x1F, *c, d: int = 1_0, **e) -> 'r':\n    if a <= b != c:\n        return [y := 1.5e3j, *c, {**e}]\n"
+               "    async def g():\n        await a; yield\n  bad indent\nclass C(B, metaclass=M): x @= 1 ; y = ... if a else not b\n"
+               "print(U'x', bR'y', Rb\"z\", 0o17, 0b1, '\\N{BULLET}', f'{a=}', \"unterminated\n")
+
+    def enumerate(self, tier, seed):
+        # First-use grid (deterministic): a fresh interpreter whose very first library call is interrupted at line n, for a
+        # grid of n that is dense over the first thousands of lines (where tables and patterns are built once); the caller goes
+        # on, and every later result must equal the warm one.
+        step = 64 if tier == 'quick' else 8
+        grid = list(range(20 + seed % step, 6000, step)) + [int(6000 * 1.35 ** k) for k in range(1, 14)]
+        for i, n in enumerate(grid):
+            vs = ['3.8', '3.12'] if i % 2 else ['3.12', '3.6']
+            calls = [[k, v, self.BATTERY] for v in vs for k in (('parse', 'errors') if v == vs[0] else ('tokenize', 'pep8'))]
+            yield {'calls': calls, 'grid': n}
+
     def check(self, case):
         calls = case['calls']
+        if case.get('grid'):
+            warm = [norm(run_call(c)) for c in calls]
+            r = subprocess.run([sys.executable, '-m', 'vf.coldrun'], cwd=VERIF, capture_output=True, timeout=600,
+                               input=json.dumps({'calls': calls, 'schedule': [1], 'threaded': False, 'abort_first': case['grid']}).encode('utf-8'),
+                               env=dict(os.environ, VERIF_REPO=REPO, PYTHONHASHSEED='0'))
+            if r.returncode != 0 or not r.stdout:
+                raise RuntimeError('cold-start runner failed: %s' % r.stderr.decode('utf-8', 'replace')[-500:])
+            cold = json.loads(r.stdout.decode('utf-8'))
+            fail = None
+            for i, (a, b) in enumerate(zip(cold, warm)):
+                if norm(a) != b:
+                    fail = ('cold-start-result-differs:aborted-first', 'first call interrupted at line %d, then call %d %s(%s): cold %s vs warm %s'
+                            % (case['grid'], i, calls[i][0], calls[i][1], short(a, 150), short(b, 150)))
+                    break
+            return Outcome(fail=fail, nontrivial=True, classes=['first-use-grid'], key=digest(calls, case['grid']), units=len(calls))
         versions = sorted({c[1] for c in calls})
         if case.get('fresh_grammars'):
             parso.grammar._loaded_grammars.clear()
@@ -459,6 +491,8 @@ class C18(Prop):
         return c
 
     def sample_repr(self, case):
+        if case.get('grid'):
+            return {'calls': [[c[0], c[1], short(c[2], 80)] for c in case['calls']], 'first_call_interrupted_at_line': case['grid']}
         return {'calls': [[c[0], c[1], short(c[2], 80)] for c in case['calls']], 'schedule': case['schedule'][:12],
                 'fresh_grammars': case.get('fresh_grammars')}
 
